@@ -421,6 +421,8 @@ def execMachine : Machine ExecD where
     | "boundedclosereturned", ["false"] => evStep .closeExpired
     | "cancelall", [] => evStep .cancelAll
     | "callback", [] => evStep .callback
+    -- the error handler of a failed item completed: part of that item's processing, no transition of its own
+    | "handled", [] => some d
     | "account", [v, to, letters] =>
         let variant := match v with
           | "futfallible" => Exec.Variant.futFallible
